@@ -78,26 +78,81 @@ def hard_check(assertions, timeout_s, want_model=False):
     return res, model
 
 
+class LV2(LV):
+    """affine form with an optional *shallow* twin `sh`: the same value written over named intermediate words"""
+    __slots__ = ("sh",)
+
+    def __init__(self, c, t, lo, hi):
+        LV.__init__(self, c, t, lo, hi)
+        self.sh = None
+
+
 class Lin32(LinCtx):
-    """D-LIN with (i) exact division for wraps of forms divisible by the modulus, (ii) elimination of variables fixed by
-    solver-proved facts (so that identities become comparisons of normal forms), (iii) splitting a form at a bit position,
-    (iv) *local* proofs: a fact about a form is first attempted from the defining constraints of the quotient variables within
-    a few definition steps of it (a subset of the recorded constraints, hence sound), in a small fresh solver; the full
-    constraint set is only used as a last resort and then in a child process with a hard deadline."""
+    """D-LIN with
+    (i)   exact division for wraps of forms divisible by the modulus;
+    (ii)  elimination of variables fixed by solver-proved facts, so that identities become comparisons of normal forms;
+    (iii) splitting a form at a bit position (uxth / lsr / lsl);
+    (iv)  *local* proofs.  Every value carries, next to its fully expanded ("deep") form used for (ii), a shallow form over
+          *names*: each wrap result r = a - 2^w k gets a name variable n in [0, 2^w) with the defining equation
+          n = shallow(a) - 2^w k.  A dropped carry is proved zero from the defining equations within a few steps of it, in
+          a small fresh solver (a subset of valid facts, hence sound).  The full constraint set is only a last resort for
+          the final identities, and is then decided in a child process with a hard deadline (`hard_check`)."""
     BIG = 150         # contexts with more variables than this never run z3 in-process on the full constraint set
 
     def __init__(self, timeout_ms=20000):
         LinCtx.__init__(self, timeout_ms)
         self.subst = {}
-        self.defs = {}            # quotient variable -> (form before the wrap, bits)
-        self.range_facts = []     # (form, bits): 0 <= form < 2^bits, left behind by eliminated quotient variables
-        self.facts = []           # (frozenset of variables, z3 formula): assumptions / implied bounds
+        self.defs = {}            # variable (quotient or name) -> list of (z3 constraints, variable set) defining it
+        self.facts = []           # (frozenset of variables, z3 formula): assumptions
         self.div_facts = 0
         self.struct_splits = 0
         self.local_proofs = 0
-        self.depth_hist = {}
         self.full_proofs = 0
-        self.full_budget = 6      # how many times one run may fall back to the full constraint set for a dropped carry
+        self.depth_hist = {}
+
+    # ---- forms with shallow twins
+    def mk(self, c, t, lo=None, hi=None):
+        r = LinCtx.mk(self, c, t, lo, hi)
+        return LV2(r.c, r.t, r.lo, r.hi)
+
+    @staticmethod
+    def sh(a):
+        s = getattr(a, "sh", None)
+        return a if s is None else s
+
+    @staticmethod
+    def _has(a):
+        return getattr(a, "sh", None) is not None
+
+    def add(self, a, b):
+        r = LinCtx.add(self, a, b)
+        if self._has(a) or self._has(b):
+            r.sh = LinCtx.add(self, self.sh(a), self.sh(b))
+        return r
+
+    def neg(self, a):
+        r = LinCtx.neg(self, a)
+        if self._has(a):
+            r.sh = LinCtx.neg(self, a.sh)
+        return r
+
+    def scale(self, a, k):
+        r = LinCtx.scale(self, a, k)
+        if k and self._has(a):
+            r.sh = LinCtx.scale(self, a.sh, k)
+        return r
+
+    def name(self, lo, hi, constraints_of, over):
+        """fresh name variable n with the defining constraints constraints_of(z3 n) over the given shallow forms"""
+        n = self.new_var("n%d" % len(self.names), lo, hi, "name")
+        vs = {n}
+        for f in over:
+            vs |= set(f.t)
+        d = (constraints_of(self.zv[n]), frozenset(vs))
+        for v in vs:
+            if v == n or self.kind.get(v) == "quot":
+                self.defs.setdefault(v, []).append(d)
+        return LV2(0, {n: 1}, lo, hi)
 
     def assume(self, formula, forms):
         """record an assumption over the given forms (also usable by local proofs)"""
@@ -110,6 +165,7 @@ class Lin32(LinCtx):
     def resolve(self, a):
         if not self.subst or not a.t:
             return a
+        sh = getattr(a, "sh", None)
         while True:
             hit = [v for v in a.t if v in self.subst]
             if not hit:
@@ -123,6 +179,7 @@ class Lin32(LinCtx):
                 for u, ku in r.t.items():
                     t[u] = t.get(u, 0) + k * ku
             a = self.mk(c, t, a.lo, a.hi)
+            a.sh = sh
 
     def eliminate(self, f, label):
         """f == 0 has been proved: record it, and solve it for its newest variable when the coefficients allow"""
@@ -135,25 +192,28 @@ class Lin32(LinCtx):
         rest = {u: k for u, k in f.t.items() if u != v}
         if f.c % g == 0 and all(k % g == 0 for k in rest.values()):
             self.subst[v] = self.mk(-f.c // g, {u: -k // g for u, k in rest.items()}, self.vlo[v], self.vhi[v])
-            if v in self.defs:
-                a, bits = self.defs[v]
-                self.range_facts.append((self.resolve(self.add(a, self.mk(0, {v: -(1 << bits)}))), bits))
 
     def wrap(self, a, bits, what="wrap"):
         a = self.resolve(a)
         m = 1 << bits
+        sa = self.sh(a)
         if a.t and a.c % m == 0 and all(k % m == 0 for k in a.t.values()):
             # every variable is an integer, so the form is a multiple of 2^bits: its residue is 0 and the quotient is exact
             q = self.mk(a.c // m, {v: k // m for v, k in a.t.items()}, -((-a.lo) // m), a.hi // m)
             self.div_facts += 1
             if q.t:
                 zq = self.z(q)
-                self.assume(z3.And(zq >= q.lo, zq <= q.hi), [q])      # implied by the bounds of the operands; stated to help the solver
+                self.solver.add(zq >= q.lo, zq <= q.hi)      # implied by the bounds of the operands
+                q.sh = self.name(q.lo, q.hi, lambda n: [self.z(sa) == m * n], [sa])
             return self.const(0), q
         n0 = len(self.names)
         r, q = LinCtx.wrap(self, a, bits, what)
-        if len(self.names) == n0 + 1:
-            self.defs[n0] = (a, bits)
+        if len(self.names) == n0 + 1:                 # a fresh quotient variable k = n0 was introduced: r = a - m*k
+            zk = self.zv[n0]
+            self.kind[n0] = "quot"
+            r.sh = self.name(0, m - 1, lambda n: [n == self.z(sa) - m * zk], [sa, q])
+        elif q.is_const() and q.c and self._has(a) and getattr(r, "sh", None) is None and isinstance(r, LV2):
+            r.sh = LinCtx.add(self, sa, self.const(-m * q.c))
         return r, q
 
     def split(self, a, n):
@@ -171,51 +231,55 @@ class Lin32(LinCtx):
         lo = self.mk(a.c % m, lo_t)
         if lo.lo >= 0 and lo.hi < m:
             self.struct_splits += 1
-            return lo, self.mk(a.c // m, hi_t, a.lo // m, a.hi // m)
+            hi = self.mk(a.c // m, hi_t, a.lo // m, a.hi // m)
+            if self._has(a):
+                sa = a.sh
+                if lo.t:
+                    lo.sh = self.name(lo.lo, lo.hi, lambda x: [], [])
+                if hi.t:
+                    hi.sh = self.name(hi.lo, hi.hi, lambda x: [self.z(sa) == self.z(self.sh(lo)) + m * x], [sa, self.sh(lo)])
+            return lo, hi
         return self.wrap(a, n, "h")
 
     # ---- proofs
-    def local_zero(self, f, depths=(1, 2, 3), timeout_ms=4000):
-        """True if f == 0 follows from the constraints within `depth` definition steps of f's variables"""
+    def local_zero(self, f, depths=(2, 4), timeout_ms=2000):
+        """True if f == 0 follows from the defining equations within `depth` steps of the variables of f's shallow form"""
         import time
         f = self.resolve(f)
         if f.is_const():
             return f.c == 0
         t0 = time.time()
+        goal = self.sh(f)
         try:
             for d in depths:
-                S = set(f.t)
+                S = set(goal.t)
                 frontier = set(S)
-                done = set()
                 zs = []
+                seen = set()
                 for _ in range(d):
                     new = set()
                     for v in frontier:
-                        if v in self.defs and v not in done:
-                            done.add(v)
-                            a, bits = self.defs[v]
-                            form = self.resolve(a)
-                            e = self.z(form) - (1 << bits) * self.zv[v]
-                            zs += [e >= 0, e < (1 << bits)]
-                            new |= set(form.t) - S
+                        for cons, vs in self.defs.get(v, ()):
+                            if id(cons) not in seen:
+                                seen.add(id(cons))
+                                zs += cons
+                                new |= vs - S
                     S |= new
                     frontier = new
                     if not new:
                         break
-                for k, (form, bits) in enumerate(self.range_facts):
-                    form = self.resolve(form)
-                    if form.t and set(form.t) <= S:
-                        e = self.z(form)
-                        zs += [e >= 0, e < (1 << bits)]
                 for vs, formula in self.facts:
                     if vs <= S:
                         zs.append(formula)
                 for v in S:
                     zs += [self.zv[v] >= self.vlo[v], self.zv[v] <= self.vhi[v]]
+                    r = self.subst.get(v)
+                    if r is not None and not r.t:
+                        zs.append(self.zv[v] == r.c)
                 s = z3.Solver()
                 s.set("timeout", timeout_ms)
                 s.add(zs)
-                s.add(self.z(f) != 0)
+                s.add(self.z(goal) != 0)
                 self.queries += 1
                 if s.check() == z3.unsat:
                     self.local_proofs += 1
@@ -245,6 +309,8 @@ class Lin32(LinCtx):
         return {n: m.get(n, 0) for n in self.names}
 
     def prove_zero(self, f, label="", timeout_ms=None):
+        """dropped carries: local proof; the full constraint set only for small contexts (large ones leave the carry to the
+        final identity, whose residual then contains it)"""
         f = self.resolve(f)
         if f.is_const():
             return f.c == 0
@@ -255,10 +321,8 @@ class Lin32(LinCtx):
         if self.local_zero(f):
             return True
         if len(self.names) > self.BIG:
-            if self.full_budget <= 0:
-                return None
-            self.full_budget -= 1
-        return self.prove(self.z(f) == 0, label, timeout_ms)
+            return None
+        return LinCtx.prove(self, self.z(f) == 0, label, timeout_ms)
 
 
 # ---------------------------------------------------------------------------------------------------------------
